@@ -2,6 +2,7 @@ import GridVerif.Props.C09
 import GridVerif.Props.C09.Example
 import GridVerif.Props.C09.Gen
 import GridVerif.Props.C09.Gen2
+import GridVerif.Props.C09.Mol
 
 #print axioms GridVerif.C09.reweighted_sum_is_integral
 #print axioms GridVerif.C09.angular_integral_exact
@@ -43,3 +44,6 @@ import GridVerif.Props.C09.Gen2
 #print axioms GridVerif.C09.gen_mol_interp_is_sum
 #print axioms GridVerif.C09.gen_integrate_window
 #print axioms GridVerif.C09.gen_convert_atomic_window
+#print axioms GridVerif.C09.gen_mol_interpolate_eq_model
+#print axioms GridVerif.C09.gen_mol_one_atom
+#print axioms GridVerif.C09.gen_mol_is_sum_of_atomic
